@@ -231,6 +231,16 @@ def k_gen(ctx, jinja2):
         for t, _ in items:
             toks += t
         cases.append((" ".join(toks), "".join(s for _, s in items)))
+    # a fixed family: call blocks and macros whose parameter is one of the special names, with the same or
+    # another special name loaded in the call expression and / or in the body
+    for pn in (1, 2, 3, 10):
+        for un in (None, 1, 2, 3):
+            for bn in (None, 1, 2, 3):
+                toks = ["1", "A", "1", str(pn)] + (["1", str(un)] if un else ["0"]) + ["0"] + (["1", "U", str(bn)] if bn else ["0"])
+                src = ("{% call(" + nm(pn) + ") f(" + (nm(un) if un else "") + ") %}" + ("{{ " + nm(bn) + " }}" if bn else "") + "{% endcall %}")
+                cases.append((" ".join(toks), src))
+                toks = ["1", "M", "1", str(pn)] + (["1", "U", str(bn)] if bn else ["0"])
+                cases.append((" ".join(toks), "{% macro mq(" + nm(pn) + ") %}" + ("{{ " + nm(bn) + " }}" if bn else "") + "{% endmacro %}"))
     out = ctx.driver("pywf", [c[0] for c in cases])
     for (enc, src), m in zip(cases, out):
         ok, facts = real_facts(jinja2, src)
